@@ -69,7 +69,7 @@ static void op_dec (void)
   size_t maxsz = (size_t) num (g_tok[5]);
   size_t n, cap = 0, i;
   unsigned char *t = unhex (g_tok[6], &n);
-  unsigned char *mem = NULL;
+  unsigned char *mem = NULL, *exact = NULL;
   sc_array_t *data, *out = NULL, *res;
   int rc, bad = 0;
   if (inplace) {
@@ -86,8 +86,10 @@ static void op_dec (void)
     res = data;
   }
   else {
-    data = sc_array_new_count (1, n);
-    if (n) memcpy (data->array, t, n);
+    /* the input text lives in a block of exactly n bytes (a view), so that ASan sees any read behind it */
+    exact = (unsigned char *) malloc (n);
+    if (n) memcpy (exact, t, n);
+    data = sc_array_new_data (exact, 1, n);
     if (owner) { out = sc_array_new_count (esz, cnt); if (esz * cnt) memset (out->array, 0x5a, esz * cnt); }
     else out = sc_array_new_data (mem + SENT, esz, cnt);
     res = out;
@@ -107,7 +109,7 @@ static void op_dec (void)
   if (!inplace && (data->elem_count != n || (n && memcmp (data->array, t, n)))) printf (" INPUT-MODIFIED");
   sc_array_destroy (data);
   if (out) sc_array_destroy (out);
-  free (mem); free (t);
+  free (mem); free (t); free (exact);
 }
 
 /* info <hextext> */
@@ -116,9 +118,11 @@ static void op_info (void)
   size_t n, osz = 0x1234;
   char fc = '?';
   unsigned char *t = unhex (g_tok[1], &n);
-  sc_array_t *data = sc_array_new_count (1, n);
+  unsigned char *exact = (unsigned char *) malloc (n);      /* exactly n bytes: reads behind the text are seen by ASan */
+  sc_array_t *data;
   int rc;
-  if (n) memcpy (data->array, t, n);
+  if (n) memcpy (exact, t, n);
+  data = sc_array_new_data (exact, 1, n);
   rc = sc_io_decode_info (data, &osz, &fc, NULL);
   if (rc == 0) printf ("ok %llx %x", (unsigned long long) osz, (unsigned) (unsigned char) fc);
   else printf ("err");
@@ -127,7 +131,7 @@ static void op_info (void)
   /* NULL output arguments are allowed */
   if (sc_io_decode_info (data, NULL, NULL, NULL) != rc) printf (" NULL-ARGS-DIFFER");
   sc_array_destroy (data);
-  free (t);
+  free (t); free (exact);
 }
 
 static void put_file (const char *fn)
@@ -206,8 +210,8 @@ static void op_puff (void)
   size_t n;
   unsigned char *src = unhex (g_tok[3], &n);
   unsigned long sourcelen = (unsigned long) num (g_tok[4]);
-  unsigned char *dest = nil ? NULL : (unsigned char *) malloc (destlen + 1);
-  unsigned char *srcx = (unsigned char *) malloc (sourcelen + 1);   /* exactly sourcelen bytes: overreads are seen by ASan */
+  unsigned char *dest = nil ? NULL : (unsigned char *) malloc (destlen);   /* exactly destlen bytes */
+  unsigned char *srcx = (unsigned char *) malloc (sourcelen);       /* exactly sourcelen bytes: overreads are seen by ASan */
   int rc;
   memcpy (srcx, src, sourcelen < n ? sourcelen : n);
   rc = sc_puff (dest, &destlen, srcx, &sourcelen);
@@ -252,7 +256,7 @@ static void op_nonu (void)
 {
   size_t dsz = (size_t) num (g_tok[1]), n;
   unsigned char *s = unhex (g_tok[2], &n);
-  unsigned char *sx = (unsigned char *) malloc (n + 1);
+  unsigned char *sx = (unsigned char *) malloc (n);                 /* exactly n bytes */
   char *o = dsz ? (char *) malloc (dsz) : NULL;
   int rc;
   memcpy (sx, s, n);
